@@ -48,7 +48,7 @@ def generate(prng, tier, index):
         # scale: matrix cells are multiples of 0.5 / E_t, so anything that treats "small" cells specially (cut-offs,
         # float accumulation) only shows on a topology with ~1e6 edge ends; one such network per invocation
         return {"variant": "clean", "source": "huge", "topos": [{"kind": "clique", "size": 2, "name": "2-clique"}],
-                "clique": prng.choice((1100, 1150, 1200)), "pendants": prng.randrange(1, 4), "ops": ["same"],
+                "clique": prng.choice((1100, 1150, 1200)), "pendants": prng.randrange(1, 4), "ops": ["same", "overall"],
                 "names_prefix": 1}
     big = tier == "thorough" or prng.random() < 0.1
     ntop = prng.randrange(1, 4) if prng.random() > 0.05 else prng.randrange(4, 7)
@@ -235,7 +235,8 @@ def _execute(sc, ctx):
                 ref[(a, b)] = ref.get((a, b), 0) + 1
                 ref[(b, a)] = ref.get((b, a), 0) + 1
             ref = {k2: c / (2 * E) for k2, c in ref.items()}
-            if set(m) != set(ref) or any(abs(m[k2] - ref[k2]) > TOL for k2 in ref):
+            tol_o = TOL + 4.5e-16 * 2 * E          # accumulated rounding of up to 2E additions per cell, as for the per-topology matrices
+            if set(m) != set(ref) or any(abs(m[k2] - ref[k2]) > tol_o for k2 in ref):
                 ctx.violate(f"{P}.overall", f"overall-degree matrix differs from the fraction of edge ends: got "
                                             f"{sorted(m.items())[:3]}, expected {sorted(ref.items())[:3]}")
                 return
